@@ -71,6 +71,13 @@ func (w *writer) NeedsRollover(rollover int64) bool {
 	// Rollover is intentionally based on data-file size only, not including the
 	// index. The index grows proportionally; callers set the threshold based on
 	// message-data volume, not total on-disk cost.
+	//
+	// A segment without messages is never rolled: the next segment would be named after
+	// the same offset, i.e. be the very same files (a V2 header alone is 8 bytes, which
+	// already exceeds a rollover threshold below that).
+	if w.index.Len() == 0 {
+		return false
+	}
 	return w.messages.Size() > rollover
 }
 
